@@ -17,7 +17,7 @@
 //  * every real result x is reported as the integer round(x) when |x - round(x)| <=
 //    1e-4 and as the raw double otherwise (fields without suffix: compared by
 //    equality with TLC's integer expectation), and - where TLC validates - as the
-//    integer round(x * 2^14) (fields "..._s", saturated at +-2^24; "nan" is set
+//    integer round(x * 2^14) (fields "..._s", saturated at +-2^26; "nan" is set
 //    when such a field was NaN).
 //  * guards only look at INPUT flags computed by the specification ("inv": the
 //    matrix is regular): inverse / rcp / xfmNormal are not evaluated otherwise.
@@ -33,7 +33,7 @@ using namespace rkcommon::math;
 using vj::Json;
 
 static const double SCALE = 16384.0;  // SC of the specification
-static const long long SAT = 1LL << 24;
+static const long long SAT = 1LL << 26;
 static const double TOL = 1e-4;
 
 static Json num(double d)
@@ -71,6 +71,12 @@ static const double PI = 3.14159265358979323846;
 // general angles (LinGeneral): {q, n, den} = q * pi / 2 + n / den
 static double angleQ(const Json &a) { return (double)a["q"].num() * (PI / 2) + (double)a["n"].num() / (double)a["den"].num(); }
 static double angleOf(const Json &arg) { return (double)arg["num"].num() * PI / (double)arg["den"].num(); }
+
+// a second scalar type for the mixed-type overloads "U * QuaternionT<T>".  Only combinations whose result type is
+// QuaternionT<T> itself can be instantiated (double * QuaternionT<float> does not compile in the library: its body converts
+// QuaternionT<float> to QuaternionT<double>, for which no constructor exists), so: long for float, float for double.
+template <typename T> struct OtherScalar { typedef long type; };
+template <> struct OtherScalar<double> { typedef float type; };
 
 // ---------------------------------------------------------------------------------------
 // 3D: LinearSpace3<vec_t<T,3,A>>, AffineSpaceT<...>, QuaternionT<T>
@@ -417,6 +423,36 @@ struct K3
       o.set("diff2", jq2(x - y));
       o.set("dot4", num(4 * (double)dot(x, y)));
       o.set("m", jm(L(x)));
+      // every scalar / compound / mixed-type overload (s = 2, 1/2, 1: exact)
+      typedef typename OtherScalar<T>::type U;
+      o.set("smul_l", jq2(T(2) * x));
+      o.set("smul_r", jq2(x * T(2)));
+      o.set("smul_int", jq2(2 * x));
+      o.set("smul_dbl", jq2(U(2) * x));
+      o.set("sdiv", jq2(x / T(0.5)));
+      o.set("rdiv", jq2(T(2) / x));
+      o.set("qdiv", jq2(x / y));
+      o.set("addr", jq2(x + T(1)));
+      o.set("addl", jq2(T(1) + x));
+      o.set("subr", jq2(x - T(1)));
+      o.set("subl", jq2(T(1) - x));
+      o.set("pos", jq2(+x));
+      { Q z = x; z += T(1); o.set("pluseq_s", jq2(z)); }
+      { Q z = x; z -= T(1); o.set("minuseq_s", jq2(z)); }
+      { Q z = x; z *= T(2); o.set("muleq_s", jq2(z)); }
+      { Q z = x; z /= T(0.5); o.set("diveq_s", jq2(z)); }
+      { Q z = x; z += y; o.set("pluseq_q", jq2(z)); }
+      { Q z = x; z -= y; o.set("minuseq_q", jq2(z)); }
+      { Q z = x; z *= y; o.set("muleq_q", jq2(z)); }
+      { Q z = x; z /= y; o.set("diveq_q", jq2(z)); }
+      o.set("eq", x == y);
+      o.set("ne", x != y);
+      o.set("ctor_r", jq2(Q(T(1))));
+      o.set("ctor_v", jq2(Q(x.v())));
+      o.set("ctor_rv", jq2(Q(x.r, x.v())));
+      o.set("vpart2", jv(VU(T(2) * x.v())));
+      o.set("abs1", num(abs(x)));
+      o.set("normalized2", jq2(normalize(x)));
     } else if (a == "QuatRat") {
       // rotation with the rational matrix num / den = the rotation of the integer quaternion h / |h|
       const Json &n = arg["num"];
@@ -442,6 +478,75 @@ struct K3
       const L m(q);
       o.set("m", jm(m));
       o.set("m_s", jmS(m));
+      // ------------------------------------------------------------------ operator overloads, converting constructors
+    } else if (a == "Ops3") {
+      const L x = mat(arg["a"]), y = mat(arg["b"]), x2 = mat(arg["a2"]);
+      o.set("smul2", jm(T(2) * x));
+      o.set("smulneg", jm(T(-3) * x));
+      o.set("divs", jm(x2 / T(2)));
+      o.set("plus", jm(+x));
+      { L z = x; z *= z; o.set("selfmul", jm(z)); }
+      o.set("eq", x == y);
+      o.set("ne", x != y);
+      o.set("eqself", x == x);
+      o.set("neself", x != x);
+      { L c(x); o.set("copy", jm(c)); }
+      { L d(zero); d = x; o.set("assign", jm(d)); }
+      if (arg["invb"].boolean()) {
+        o.set("div", jm(x / y));
+        L z = x;
+        z /= y;
+        o.set("diveq", jm(z));
+      }
+      if (arg["inva"].boolean()) {
+        L z = x;
+        z /= z;
+        o.set("selfdiv", jm(z));
+      }
+    } else if (a == "AffOps") {
+      const AF x = aff(arg["a"]), y = aff(arg["b"]);
+      o.set("smul2", jaff(T(2) * x));
+      o.set("plus", jaff(+x));
+      o.set("neg", jaff(-x));
+      o.set("add", jaff(x + y));
+      o.set("sub", jaff(x - y));
+      { AF z = x; z *= y; o.set("muleq", jaff(z)); }
+      { AF z = x; z *= z; o.set("selfmul", jaff(z)); }
+      o.set("eq", x == y);
+      o.set("ne", x != y);
+      o.set("eqself", x == x);
+      o.set("neself", x != x);
+      { AF c(x); o.set("copy", jaff(c)); }
+      { AF d(zero); d = x; o.set("assign", jaff(d)); }
+      if (arg["invb"].boolean()) {
+        o.set("div", jaff(x / y));
+        AF z = x;
+        z /= y;
+        o.set("diveq", jaff(z));
+      }
+      if (arg["inva"].boolean()) {
+        AF z = x;
+        z /= z;
+        o.set("selfdiv", jaff(z));
+      }
+    } else if (a == "Convert3") {
+      const AF x = aff(arg);
+      typedef LinearSpace3<vec_t<float, 3, false>> Lf;
+      typedef LinearSpace3<vec_t<double, 3, false>> Ld;
+      typedef LinearSpace3<vec_t<float, 3, true>> Lfa;
+      o.set("lin_f", K3<float, false>::jm(Lf(x.l)));
+      o.set("lin_d", K3<double, false>::jm(Ld(x.l)));
+      o.set("lin_fa", K3<float, true>::jm(Lfa(x.l)));
+      o.set("aff_f", K3<float, false>::jaff(AffineSpaceT<Lf>(x)));
+      o.set("aff_d", K3<double, false>::jaff(AffineSpaceT<Ld>(x)));
+      o.set("aff_fa", K3<float, true>::jaff(AffineSpaceT<Lfa>(x)));
+    } else if (a == "GenFrame") {
+      o.set("m1", jmS(frame(unit(arg["n"]))));
+      o.set("m2", jmS(frame(unit(arg["n"]), unit(arg["up"]))));
+    } else if (a == "GenLookat") {
+      const AF x = AF::lookat(vec(arg["eye"]), vec(arg["point"]), vec(arg["up"]));
+      o.set("ls", jmS(x.l));
+      o.set("ps", jvS(x.p));
       // ------------------------------------------------------------------ non-lattice families (LinGeneral): record only
     } else if (a == "GenRot") {
       const V u = unit(arg["axis"]);
@@ -482,30 +587,35 @@ struct K3
       o.set("rq", rq);
       o.set("RM", rm);
     } else if (a == "GenMat3") {
-      const AF x(mat8(arg["ka"]), vec(arg["pa"]) / T(8)), y(mat8(arg["kb"]), vec(arg["pb"]) / T(8));
+      // the matrices are K / 8 * 2^e; results are re-scaled by the exact power of two that undoes the scale
+      const int ex = (int)arg["e"].num();
+      const T sc = (T)std::ldexp(1.0, ex), un = (T)std::ldexp(1.0, -ex), un3 = (T)std::ldexp(1.0, -3 * ex), un6 = (T)std::ldexp(1.0, -6 * ex);
+      const AF x(sc * mat8(arg["ka"]), vec(arg["pa"]) / T(8)), y(sc * mat8(arg["kb"]), vec(arg["pb"]) / T(8));
       const L inv = x.l.inverse();
-      o.set("det", fix(x.l.det(), nan));
-      o.set("detb", fix(y.l.det(), nan));
-      o.set("detab", fix((x.l * y.l).det(), nan));
-      o.set("inv", jmS(inv));
+      o.set("det", fix((double)(x.l.det() * un3), nan));
+      o.set("detb", fix((double)(y.l.det() * un3), nan));
+      o.set("detab", fix((double)((x.l * y.l).det() * un6), nan));
+      o.set("inv", jmS(sc * inv));
       o.set("minv", jmS(x.l * inv));
       o.set("invm", jmS(inv * x.l));
-      const AF r = rcp(x);
-      o.set("rcp", jaffS(r));
-      o.set("rcpmul", jaffS(r * x));
       Json nr = Json::array(), cp = Json::array(), ns = Json::array();
-      const AF xy = x * y;
       const Json &vs = arg["vs"];
-      for (size_t k = 0; k < vs.size(); ++k) {
-        const V v = vec(vs[k]);
-        nr.push(jvS(xfmNormal(x.l, v)));
-        const V p = V(v / T(8));
-        cp.push(jvS(xfmPoint(xy, p)));
-        ns.push(jvS(xfmPoint(x, V(xfmPoint(y, p)))));
-      }
+      for (size_t k = 0; k < vs.size(); ++k) nr.push(jvS(V(sc * xfmNormal(x.l, vec(vs[k])))));
       o.set("normal", nr);
-      o.set("composed", cp);
-      o.set("nested", ns);
+      (void)un;
+      if (ex == 0) {
+        const AF r = rcp(x);
+        o.set("rcp", jaffS(r));
+        o.set("rcpmul", jaffS(r * x));
+        const AF xy = x * y;
+        for (size_t k = 0; k < vs.size(); ++k) {
+          const V p = V(vec(vs[k]) / T(8));
+          cp.push(jvS(xfmPoint(xy, p)));
+          ns.push(jvS(xfmPoint(x, V(xfmPoint(y, p)))));
+        }
+        o.set("composed", cp);
+        o.set("nested", ns);
+      }
       // ------------------------------------------------------------------ recorded executions
     } else if (a == "TNew") {
       cur = AF(one);
@@ -691,17 +801,47 @@ struct K2
     } else if (a == "Aff2RotAbout") {
       if (!RotateAbout2<T>::run(arg, (T)angleOf(arg), o)) o.set("ret", "n/a");
     } else if (a == "GenMat2") {
-      const T d = T(8);
+      const int ex = (int)arg["e"].num();
+      const T d = T(8), sc = (T)std::ldexp(1.0, ex), un2 = (T)std::ldexp(1.0, -2 * ex), un4 = (T)std::ldexp(1.0, -4 * ex);
       const Json &ka = arg["ka"], &kb = arg["kb"];
-      const L x(V(e(ka, 0, 0) / d, e(ka, 1, 0) / d), V(e(ka, 0, 1) / d, e(ka, 1, 1) / d));
-      const L y(V(e(kb, 0, 0) / d, e(kb, 1, 0) / d), V(e(kb, 0, 1) / d, e(kb, 1, 1) / d));
+      const L x = sc * L(V(e(ka, 0, 0) / d, e(ka, 1, 0) / d), V(e(ka, 0, 1) / d, e(ka, 1, 1) / d));
+      const L y = sc * L(V(e(kb, 0, 0) / d, e(kb, 1, 0) / d), V(e(kb, 0, 1) / d, e(kb, 1, 1) / d));
       const L inv = x.inverse();
-      o.set("det", fix(x.det(), nan));
-      o.set("detb", fix(y.det(), nan));
-      o.set("detab", fix((x * y).det(), nan));
-      o.set("inv", jmS(inv));
+      o.set("det", fix((double)(x.det() * un2), nan));
+      o.set("detb", fix((double)(y.det() * un2), nan));
+      o.set("detab", fix((double)((x * y).det() * un4), nan));
+      o.set("inv", jmS(sc * inv));
       o.set("minv", jmS(x * inv));
       o.set("invm", jmS(inv * x));
+      o.set("orth", jmS(x.orthogonal()));
+    } else if (a == "Ops2") {
+      const L x = mat(arg["a"]), y = mat(arg["b"]), x2 = mat(arg["a2"]);
+      o.set("smul2", jm(T(2) * x));
+      o.set("smulneg", jm(T(-3) * x));
+      o.set("divs", jm(x2 / T(2)));
+      o.set("plus", jm(+x));
+      { L z = x; z *= z; o.set("selfmul", jm(z)); }
+      o.set("eq", x == y);
+      o.set("ne", x != y);
+      o.set("eqself", x == x);
+      o.set("neself", x != x);
+      { L c(x); o.set("copy", jm(c)); }
+      { L q(zero); q = x; o.set("assign", jm(q)); }
+      if (arg["invb"].boolean()) {
+        o.set("div", jm(x / y));
+        L z = x;
+        z /= y;
+        o.set("diveq", jm(z));
+      }
+      if (arg["inva"].boolean()) {
+        L z = x;
+        z /= z;
+        o.set("selfdiv", jm(z));
+      }
+    } else if (a == "Convert2") {
+      const L x = mat(arg["l"]);
+      o.set("lin_f", K2<float>::jm(LinearSpace2<vec_t<float, 2>>(x)));
+      o.set("lin_d", K2<double>::jm(LinearSpace2<vec_t<double, 2>>(x)));
     } else if (a == "Orthogonal2") {
       const L q = mat(arg["m"]).orthogonal();
       o.set("q_s", jmS(q));
@@ -729,7 +869,7 @@ struct RotateAbout2<float>
 static bool is2D(const std::string &a)
 {
   return a == "Unary2" || a == "Inverse2" || a == "MulVec2" || a == "Pair2" || a == "Rotate2" || a == "Ctor2" || a == "Aff2Pair"
-      || a == "Aff2Rot" || a == "Aff2RotAbout" || a == "Orthogonal2" || a == "GenMat2";
+      || a == "Aff2Rot" || a == "Aff2RotAbout" || a == "Orthogonal2" || a == "GenMat2" || a == "Ops2" || a == "Convert2";
 }
 
 struct World
